@@ -297,12 +297,6 @@ Proof.
     destruct (IH _ _ _ _ _ E3) as [H1 H2]. split; [lia|]. cbn. exact H2.
 Qed.
 
-Lemma discard_chunk_mu cfg c size : mu (discard_chunk cfg c size) <= mu c.
-Proof.
-  unfold discard_chunk, mu. destruct (t_copy_n size (set_limit (c_t c) 0)) as [[a e] t1] eqn:E.
-  apply copy_n_size in E. destruct c; cbn in *. unfold tsize in *. cbn in *. lia.
-Qed.
-
 Lemma call_data_size p d t got term ret d1 t1 :
   call_data p d t = (got, term, ret, d1, t1) -> tsize t1 <= tsize t.
 Proof.
@@ -386,7 +380,7 @@ Lemma handle_auth_fuel c arg : FGood c (handle_auth cfg c arg).
 Proof. fstart c. unfold handle_auth, pop_auth. csf. cbv zeta. repeat brk; csf; fleaf. Qed.
 
 Lemma handle_data_fuel c arg : FGood c (handle_data cfg c arg).
-Proof. fstart c. unfold handle_data, pop_data. csf. cbv zeta. repeat brk; csf; fleaf. Qed.
+Proof. fstart c. unfold handle_data, pop_data, close_unless. csf. cbv zeta. repeat brk; csf; fleaf. Qed.
 
 
 Lemma handle_starttls_fuel c : FGood c (handle_starttls cfg c).
@@ -405,10 +399,8 @@ Proof.
   | |- FGood ?c (match more with [] => ?B | _ :: _ => _ end) => assert (Hbody : FGood c B)
   end.
   2:{ destruct more as [|a1 [|a2 more]]; [exact Hbody|exact Hbody|fleaf]. }
-  unfold pop_data. csf. cbv zeta.
-  repeat brk; csf;
-    try match goal with |- context [discard_chunk cfg ?c ?s] => pose proof (discard_chunk_mu cfg c s) end;
-    fleaf.
+  unfold pop_data, discard_chunk, close_unless. csf. cbv zeta.
+  repeat brk; csf; fleaf.
 Qed.
 
 
